@@ -1018,6 +1018,11 @@ func (e *Env) evalCall(n *ast.CallExpr) (Val, bool) {
 			}
 			return e.callSpec(sf, args)
 		}
+		if e.pkg != nil {
+			if f, ok := e.pkg.Scope().Lookup(id.Name).(*types.Func); ok {
+				return e.purePkgCall(f, n.Args)
+			}
+		}
 		return e.fail("unknown function %s in contract", id.Name)
 	}
 	// pkg.F(args): a library or repository function declared pure
@@ -1026,30 +1031,7 @@ func (e *Env) evalCall(n *ast.CallExpr) (Val, bool) {
 			if _, bound := e.names[id.Name]; !bound {
 				if p := x.P.findPackage(id.Name, e.pkg); p != nil {
 					if f, ok := p.Scope().Lookup(sel.Sel.Name).(*types.Func); ok {
-						key := normName(x.P.funcName(f))
-						fc := x.P.C.Funcs[key]
-						if fc == nil || !fc.Pure {
-							return e.fail("function %s is not declared pure", key)
-						}
-						args, ok := e.evalArgs(n.Args)
-						if !ok {
-							return Val{}, false
-						}
-						sig := f.Type().(*types.Signature)
-						if sig.Results().Len() != 1 || leavesOf(sig.Results().At(0).Type()) == nil {
-							return e.fail("pure function %s must have one scalar result", key)
-						}
-						var argTerms []Term
-						for _, a := range args {
-							argTerms = append(argTerms, x.flatTerms(a)...)
-						}
-						if !fc.Stable {
-							argTerms = append(argTerms, x.heapStamp(e.st))
-						}
-						rt := sig.Results().At(0).Type()
-						return x.valFromLeaves(rt, func(l leaf) Term {
-							return x.uf(fmt.Sprintf("pure!%s!0%s", key, l.suffix), l.sort, argTerms...)
-						}), true
+						return e.purePkgCall(f, n.Args)
 					}
 				}
 			}
@@ -1068,6 +1050,36 @@ func (e *Env) evalCall(n *ast.CallExpr) (Val, bool) {
 		return e.pureMethod(recv, sel.Sel.Name, args, types.ExprString(n))
 	}
 	return e.fail("unsupported call %s", types.ExprString(n))
+}
+
+// purePkgCall: F(args) for a package-level function declared pure (an uninterpreted function of its arguments,
+// the same symbol the engine uses for calls of F in the code).
+func (e *Env) purePkgCall(f *types.Func, argExprs []ast.Expr) (Val, bool) {
+	x := e.x
+	key := normName(x.P.funcName(f))
+	fc := x.P.C.Funcs[key]
+	if fc == nil || !fc.Pure {
+		return e.fail("function %s is not declared pure", key)
+	}
+	args, ok := e.evalArgs(argExprs)
+	if !ok {
+		return Val{}, false
+	}
+	sig := f.Type().(*types.Signature)
+	if sig.Results().Len() != 1 || leavesOf(sig.Results().At(0).Type()) == nil {
+		return e.fail("pure function %s must have one scalar result", key)
+	}
+	var argTerms []Term
+	for _, a := range args {
+		argTerms = append(argTerms, x.flatTerms(a)...)
+	}
+	if !fc.Stable {
+		argTerms = append(argTerms, x.heapStamp(e.st))
+	}
+	rt := sig.Results().At(0).Type()
+	return x.valFromLeaves(rt, func(l leaf) Term {
+		return x.uf(fmt.Sprintf("pure!%s!0%s", key, l.suffix), l.sort, argTerms...)
+	}), true
 }
 
 // lockHeld scans the events of the path backwards for operations on mutex l. It answers whether the last
